@@ -396,9 +396,9 @@ var binOrder = map[string]int{"struct": 0, "varint": 1, "trunc": 2, "zlen": 3, "
 
 // binInput is a rendered decoder input.
 type binInput struct {
-	Bytes []byte     // what is handed to the entry point
-	Msg   *msgModel  // for Surveyor.Send
-	Raw   []byte     // uncompressed form
+	Bytes []byte    // what is handed to the entry point
+	Msg   *msgModel // for Surveyor.Send
+	Raw   []byte    // uncompressed form
 	Model *binSeed
 }
 
